@@ -306,6 +306,12 @@ def view_uses(eng, f):
         pr = prov(f, ptr, outptr=outp)
         if pr.kind not in ("param", "cursor"):
             continue
+        if pr.kind == "cursor":
+            # only cursors that walk an input buffer: some definition of the moving pointer derives from a pointer parameter
+            # (an iterator over a local or static table is not an input view)
+            inits = [prov(f, e, depth=3, outptr=outp) for e in local_defs(f).get(pr.base, []) if e.get("k") != "un"]
+            if not any(q.kind == "param" for q in inits):
+                continue
         pt = (strip(ptr).get("t") or {})
         size = None
         if pr.view and pr.view in eng.fb.records:
